@@ -328,7 +328,9 @@ void h_begin(void) {
   XV_OBL("vhm.it.begin.first", sp_moved_ok(-1, &g0, &it));
   if (is_end(&it)) XV_CANARY("begin.empty_map");
   else if (it.current_bucket == &G.bks[0]) XV_CANARY("begin.bucket0");
+#if NB >= 2
   else XV_CANARY("begin.later_bucket");
+#endif
 }
 
 void h_next(void) {
